@@ -1,7 +1,548 @@
-//! heaps suites (stub)
-pub fn heap_case(_f: &[&str]) -> String {
-    "UNIMPLEMENTED".to_string()
+//! HEAP and CACHE suites (property C15).
+//!
+//! HEAP  id  policies  sizes  ops
+//!   policies: six comma-separated entries `f<n>` (FixedSize(n)) | `m<n>` (Multiplicative(n)), optional `x<max>` suffix
+//!             (max_items), in heap order: instructions, jump table, symbol table, expression symbols, data, custom
+//!   sizes:    six comma-separated initial sizes
+//!   ops:      space-separated tokens; the op at position k (0-based) carries payload k
+//!             i  push_instruction(Put, Some(k))        j  push_to_jump_table(k)
+//!             s<sym>  push_to_symbol_table_block(sym,k) e<sym>  push_to_expression_symbol_block(sym,k)
+//!             d  add_number(Integer(k))                 c  push_to_custom_data_block(VC(k))
+//!             r  push_register(k)   v  push_value_stack(k)   f  push_frame(k)   t<n>  add_string(n chars)
+//!   result:   `ERR@k` (op k returned Err; nothing else is printed) or `ok` followed by
+//!             B=(start,cursor,size)x6  H=heap length  K=raw cells of every block's [start,start+cursor)
+//!             I= J= S= E= D= T= C= R= V= F=  read-backs through the public interface  O= oracle verdict
+//!             or `ERR@init`, or `PANIC@k <file>` when op k panicked (file name only, no line number).
+//!
+//! CACHE id  variant  term*   (terms as in values.rs; floats are `(f <hexbits> <display>)`)
+//!   result:   ok A=addr,... R=read-back;... X=the 64-bit cache keys  O= oracle verdict
+use std::panic::{catch_unwind, AssertUnwindSafe};
+
+use garnish_lang_simple_data::{
+    BasicData, BasicDataCompanion, BasicDataCustom, BasicGarnishData, DataError, NoCustom, ReallocationStrategy, SimpleData, SimpleNumber, StorageSettings,
+};
+use garnish_lang_traits::{GarnishData, GarnishDataType, Instruction};
+
+use crate::store::{SimpleStore, Store};
+use crate::values::{parse_term, render, type_of_name, Term};
+
+#[derive(Debug, Clone, PartialEq, Eq, PartialOrd)]
+pub struct VC(pub usize);
+impl BasicDataCustom for VC {}
+
+#[derive(Default, Debug, Clone, PartialEq, Eq, PartialOrd)]
+pub struct NoHost;
+impl BasicDataCompanion<VC> for NoHost {
+    fn resolve(_d: &mut BasicGarnishData<VC, Self>, _s: u64) -> Result<bool, DataError> {
+        Ok(false)
+    }
+    fn apply(_d: &mut BasicGarnishData<VC, Self>, _e: usize, _i: usize) -> Result<bool, DataError> {
+        Ok(false)
+    }
+    fn defer_op(_d: &mut BasicGarnishData<VC, Self>, _o: Instruction, _l: (GarnishDataType, usize), _r: (GarnishDataType, usize)) -> Result<bool, DataError> {
+        Ok(false)
+    }
 }
-pub fn cache_case(_f: &[&str]) -> String {
-    "UNIMPLEMENTED".to_string()
+
+type H = BasicGarnishData<VC, NoHost>;
+
+fn parse_policy(s: &str, size: usize) -> Option<StorageSettings> {
+    let (body, max) = match s.find('x') {
+        Some(p) => (&s[..p], s[p + 1..].parse::<usize>().ok()?),
+        None => (s, usize::MAX),
+    };
+    let n: usize = body[1..].parse().ok()?;
+    let strat = match &body[..1] {
+        "f" => ReallocationStrategy::FixedSize(n),
+        "m" => ReallocationStrategy::Multiplicative(n),
+        _ => return None,
+    };
+    Some(StorageSettings::new(size, max, strat))
+}
+
+fn tag(c: &BasicData<VC>) -> String {
+    match c {
+        BasicData::Empty => "_".to_string(),
+        BasicData::InstructionWithData(Instruction::Put, k) => format!("i{}", k),
+        BasicData::JumpPoint(k) => format!("j{}", k),
+        BasicData::AssociativeItem(s, v) => format!("a{}:{}", s, v),
+        BasicData::Number(SimpleNumber::Integer(k)) => format!("n{}", k),
+        BasicData::Custom(VC(k)) => format!("c{}", k),
+        BasicData::Register(p, v) => format!("r{}:{}", p, v),
+        BasicData::RegisterRoot(v) => format!("rr{}", v),
+        BasicData::Value(p, v) => format!("v{}:{}", p, v),
+        BasicData::ValueRoot(v) => format!("vr{}", v),
+        BasicData::Frame(p, r) => format!("f{}:{}", p, r),
+        BasicData::FrameIndex(p) => format!("fi{}", p),
+        BasicData::FrameRegister(r) => format!("fr{}", r),
+        BasicData::FrameRoot => "f0".to_string(),
+        BasicData::CharList(n) => format!("t{}", n),
+        BasicData::Char(c) => format!("h{}", *c as u32),
+        _ => "?".to_string(),
+    }
+}
+
+/// what was added, with what the public interface must give back
+struct Log {
+    instr: Vec<(usize, usize)>,      // (returned index, payload)
+    jumps: Vec<usize>,               // payloads, index = position (push_to_jump_table returns ())
+    syms: Vec<(u64, usize)>,         // pushes in order
+    exprs: Vec<(u64, usize)>,
+    data: Vec<(usize, usize)>,       // (returned addr, payload)
+    texts: Vec<(usize, usize, usize)>, // (returned addr, n, payload)
+    custom: Vec<(usize, usize)>,
+    regs: Vec<usize>,
+    vals: Vec<usize>,
+    frames: Vec<(usize, usize)>,     // (payload, register depth at push time)
+}
+
+fn text_char(k: usize, i: usize) -> char {
+    (b'a' + ((k + i) % 26) as u8) as char
+}
+
+fn data_cell(h: &H, addr: usize) -> String {
+    match h.get_from_data_block_ensure_index(addr) {
+        Ok(c) => tag(c),
+        Err(_) => "!".to_string(),
+    }
+}
+
+fn read_instr(h: &H, idx: usize) -> String {
+    match h.get_instruction(idx) {
+        Some((Instruction::Put, Some(k))) => format!("i{}", k),
+        Some(_) => "?".to_string(),
+        None => "!".to_string(),
+    }
+}
+
+fn read_jump(h: &H, idx: usize) -> String {
+    match h.get_from_jump_table(idx) {
+        Some(k) => format!("j{}", k),
+        None => "!".to_string(),
+    }
+}
+
+fn read_sym_entry(h: &H, idx: usize) -> String {
+    match h.get_from_symbol_table_block_ensure_index(idx) {
+        Ok((s, v)) => format!("a{}:{}", s, v),
+        Err(_) => "!".to_string(),
+    }
+}
+
+fn read_expr(h: &H, sym: u64) -> String {
+    match h.get_symbol_expression(sym) {
+        Ok(Some(v)) => format!("{}", v),
+        Ok(None) => "-".to_string(),
+        Err(_) => "!".to_string(),
+    }
+}
+
+fn read_custom(h: &H, idx: usize) -> String {
+    match h.get_from_custom_data_block(idx) {
+        Some(VC(k)) => format!("c{}", k),
+        None => "!".to_string(),
+    }
+}
+
+fn read_regs(h: &H) -> Vec<String> {
+    let n = h.get_register_len();
+    (0..n).map(|i| match h.get_register(i) { Some(v) => format!("{}", v), None => "!".to_string() }).collect()
+}
+
+/// values from the top down, read by popping a clone
+fn read_vals(h: &H) -> Vec<String> {
+    let mut c = h.clone();
+    let mut out = vec![];
+    let limit = h.verif_heap_len() + 2;
+    while let Some(v) = c.pop_value_stack() {
+        out.push(format!("{}", v));
+        if out.len() > limit {
+            out.push("LOOP".to_string());
+            break;
+        }
+    }
+    out
+}
+
+/// frames from the top down, read by popping a clone: `<return>/<register depth after the pop>`
+fn read_frames(h: &H) -> Vec<String> {
+    let mut c = h.clone();
+    let mut out = vec![];
+    let limit = h.verif_heap_len() + 2;
+    loop {
+        match c.pop_frame() {
+            Ok(Some(r)) => out.push(format!("{}/{}", r, c.get_register_len())),
+            Ok(None) => break,
+            Err(_) => {
+                out.push("!".to_string());
+                break;
+            }
+        }
+        if out.len() > limit {
+            out.push("LOOP".to_string());
+            break;
+        }
+    }
+    out
+}
+
+fn stable_sorted(pushes: &[(u64, usize)]) -> Vec<(u64, usize)> {
+    let mut v = pushes.to_vec();
+    v.sort_by_key(|p| p.0); // stable
+    v
+}
+
+/// the property itself, checked on the implementation alone: everything added so far reads back unchanged
+fn oracle(h: &H, log: &Log, full: bool) -> Option<String> {
+    for (idx, k) in &log.instr {
+        if read_instr(h, *idx) != format!("i{}", k) {
+            return Some(format!("instr[{}]", idx));
+        }
+    }
+    for (idx, k) in log.jumps.iter().enumerate() {
+        if read_jump(h, idx) != format!("j{}", k) {
+            return Some(format!("jump[{}]", idx));
+        }
+    }
+    for (addr, k) in &log.data {
+        if data_cell(h, *addr) != format!("n{}", k) {
+            return Some(format!("data[{}]", addr));
+        }
+    }
+    for (addr, n, k) in &log.texts {
+        if data_cell(h, *addr) != format!("t{}", n) {
+            return Some(format!("text[{}]", addr));
+        }
+        for i in 0..*n {
+            if data_cell(h, addr + 1 + i) != format!("h{}", text_char(*k, i) as u32) {
+                return Some(format!("text[{}]+{}", addr, i + 1));
+            }
+        }
+    }
+    for (idx, k) in &log.custom {
+        if read_custom(h, *idx) != format!("c{}", k) {
+            return Some(format!("custom[{}]", idx));
+        }
+    }
+    if h.get_instruction_len() != log.instr.len() || h.get_jump_table_len() != log.jumps.len() || h.custom_data_size() != log.custom.len() {
+        return Some("table-length".to_string());
+    }
+    if full {
+        let want = stable_sorted(&log.syms);
+        if h.symbol_table_size() != want.len() {
+            return Some("symtab-length".to_string());
+        }
+        for (i, (s, v)) in want.iter().enumerate() {
+            if read_sym_entry(h, i) != format!("a{}:{}", s, v) {
+                return Some(format!("symtab[{}]", i));
+            }
+        }
+        for (s, _) in &log.exprs {
+            let got = read_expr(h, *s);
+            if !log.exprs.iter().any(|(s2, v2)| s2 == s && format!("{}", v2) == got) {
+                return Some(format!("expr[{}]", s));
+            }
+        }
+        let regs = read_regs(h);
+        if regs != log.regs.iter().map(|v| format!("{}", v)).collect::<Vec<_>>() {
+            return Some("registers".to_string());
+        }
+        let vals = read_vals(h);
+        if vals != log.vals.iter().rev().map(|v| format!("{}", v)).collect::<Vec<_>>() {
+            return Some("values".to_string());
+        }
+        let frames = read_frames(h);
+        if frames != log.frames.iter().rev().map(|(k, d)| format!("{}/{}", k, d)).collect::<Vec<_>>() {
+            return Some("frames".to_string());
+        }
+    }
+    None
+}
+
+fn dump(h: &H, log: &Log) -> String {
+    let blocks = h.verif_blocks();
+    let b: Vec<String> = blocks.iter().map(|(s, c, z)| format!("{},{},{}", s, c, z)).collect();
+    let k: Vec<String> = blocks
+        .iter()
+        .map(|(s, c, _)| (0..*c).map(|i| h.verif_cell(s + i).map(tag).unwrap_or("OOB".to_string())).collect::<Vec<_>>().join(","))
+        .collect();
+    let i: Vec<String> = log.instr.iter().map(|(idx, _)| read_instr(h, *idx)).collect();
+    let j: Vec<String> = (0..log.jumps.len()).map(|idx| read_jump(h, idx)).collect();
+    let s: Vec<String> = (0..log.syms.len()).map(|idx| read_sym_entry(h, idx)).collect();
+    let e: Vec<String> = log.exprs.iter().map(|(sym, _)| read_expr(h, *sym)).collect();
+    let d: Vec<String> = log.data.iter().map(|(a, _)| data_cell(h, *a)).collect();
+    let t: Vec<String> = log
+        .texts
+        .iter()
+        .map(|(a, n, _)| (0..=*n).map(|o| data_cell(h, a + o)).collect::<Vec<_>>().join("."))
+        .collect();
+    let c: Vec<String> = log.custom.iter().map(|(idx, _)| read_custom(h, *idx)).collect();
+    format!(
+        "B={} H={} K={} I={} J={} S={} E={} D={} T={} C={} R={} V={} F={}",
+        b.join("|"),
+        h.verif_heap_len(),
+        k.join("|"),
+        i.join(","),
+        j.join(","),
+        s.join(","),
+        e.join(","),
+        d.join(","),
+        t.join(","),
+        c.join(","),
+        read_regs(h).join(","),
+        read_vals(h).join(","),
+        read_frames(h).join(",")
+    )
+}
+
+fn panic_file() -> String {
+    let loc = crate::PANIC_LOC.with(|p| p.borrow().clone());
+    let file = loc.rsplit_once(':').map(|x| x.0.to_string()).unwrap_or(loc);
+    file.rsplit('/').next().unwrap_or("").to_string()
+}
+
+pub fn heap_case(f: &[&str]) -> String {
+    if f.len() < 4 {
+        return "BAD-CASE".to_string();
+    }
+    let pol: Vec<&str> = f[2].split(',').collect();
+    let sizes: Vec<usize> = f[3].split(',').filter_map(|s| s.parse().ok()).collect();
+    if pol.len() != 6 || sizes.len() != 6 {
+        return "BAD-CASE".to_string();
+    }
+    let mut st = vec![];
+    for k in 0..6 {
+        match parse_policy(pol[k], sizes[k]) {
+            Some(s) => st.push(s),
+            None => return "BAD-CASE".to_string(),
+        }
+    }
+    let ops: Vec<&str> = f[4..].iter().flat_map(|s| s.split(' ')).filter(|s| !s.is_empty()).collect();
+    let made = catch_unwind(|| H::new_with_settings(st[0].clone(), st[1].clone(), st[2].clone(), st[3].clone(), st[4].clone(), st[5].clone(), NoHost));
+    let mut h = match made {
+        Ok(Ok(h)) => h,
+        Ok(Err(_)) => return "ERR@init".to_string(),
+        Err(_) => return format!("PANIC@init {}", panic_file()),
+    };
+    let mut log = Log { instr: vec![], jumps: vec![], syms: vec![], exprs: vec![], data: vec![], texts: vec![], custom: vec![], regs: vec![], vals: vec![], frames: vec![] };
+    let status = "ok";
+    let mut verdict: Option<String> = None;
+    let long = ops.len() > 64;
+    for (k, op) in ops.iter().enumerate() {
+        let kind = &op[..1];
+        let arg: u64 = op[1..].parse().unwrap_or(0);
+        let r = catch_unwind(AssertUnwindSafe(|| -> Result<(), DataError> {
+            match kind {
+                "i" => {
+                    let idx = h.push_instruction(Instruction::Put, Some(k))?;
+                    log.instr.push((idx, k));
+                }
+                "j" => {
+                    h.push_to_jump_table(k)?;
+                    log.jumps.push(k);
+                }
+                "s" => {
+                    h.push_to_symbol_table_block(arg, k)?;
+                    log.syms.push((arg, k));
+                }
+                "e" => {
+                    h.push_to_expression_symbol_block(arg, k)?;
+                    log.exprs.push((arg, k));
+                }
+                "d" => {
+                    let a = h.add_number(SimpleNumber::Integer(k as i32))?;
+                    log.data.push((a, k));
+                }
+                "c" => {
+                    let idx = h.push_to_custom_data_block(VC(k))?;
+                    log.custom.push((idx, k));
+                }
+                "r" => {
+                    h.push_register(k)?;
+                    log.regs.push(k);
+                }
+                "v" => {
+                    h.push_value_stack(k)?;
+                    log.vals.push(k);
+                }
+                "f" => {
+                    h.push_frame(k)?;
+                    log.frames.push((k, log.regs.len()));
+                }
+                "t" => {
+                    let n = arg as usize;
+                    let s: String = (0..n).map(|i| text_char(k, i)).collect();
+                    let a = h.add_string(&s)?;
+                    log.texts.push((a, n, k));
+                }
+                _ => {}
+            }
+            Ok(())
+        }));
+        match r {
+            Ok(Ok(())) => {}
+            Ok(Err(_)) => return format!("ERR@{}", k),
+            Err(_) => return format!("PANIC@{} {}", k, panic_file()),
+        }
+        if verdict.is_none() {
+            let full = !long || k % 97 == 0 || k + 1 == ops.len();
+            let o = catch_unwind(AssertUnwindSafe(|| oracle(&h, &log, full)));
+            match o {
+                Ok(Some(w)) => verdict = Some(format!("FAIL@{}:{}", k, w)),
+                Ok(None) => {}
+                Err(_) => verdict = Some(format!("FAIL@{}:read-panic:{}", k, panic_file())),
+            }
+        }
+    }
+    let d = catch_unwind(AssertUnwindSafe(|| dump(&h, &log)));
+    match d {
+        Ok(d) => format!("{} {} O={}", status, d, verdict.unwrap_or("ok".to_string())),
+        Err(_) => format!("{} READ-PANIC {} O={}", status, panic_file(), verdict.unwrap_or("ok".to_string())),
+    }
+}
+
+// ------------------------------------------------------------------ CACHE
+
+fn atom(t: &Term) -> Option<&str> {
+    match t {
+        Term::Atom(a) => Some(a.as_str()),
+        _ => None,
+    }
+}
+
+/// add one constant through the interning path of SimpleGarnishData; returns (address, expected read-back)
+fn real_hash(v: SimpleData<NoCustom>) -> u64 {
+    use std::hash::{Hash, Hasher};
+    let mut h = std::collections::hash_map::DefaultHasher::new();
+    v.hash(&mut h);
+    v.get_data_type().hash(&mut h);
+    h.finish()
+}
+
+fn cache_add_term(d: &mut SimpleStore, t: &Term) -> Result<(usize, String, u64), String> {
+    let items = match t {
+        Term::List(items) if !items.is_empty() => items,
+        _ => return Err("BAD-TERM".into()),
+    };
+    let head = atom(&items[0]).ok_or("BAD-TERM")?;
+    let de = |e: DataError| format!("ERR {}", e);
+    let num = |i: usize| -> Result<u64, String> { atom(items.get(i).ok_or("BAD-TERM")?).ok_or("BAD-TERM")?.parse::<u64>().map_err(|_| "BAD-TERM".to_string()) };
+    match head {
+        "i" => {
+            let v: i32 = atom(&items[1]).ok_or("BAD-TERM")?.parse().map_err(|_| "BAD-TERM")?;
+            Ok((d.add_number(SimpleNumber::Integer(v)).map_err(de)?, format!("(i {})", v), real_hash(SimpleData::Number(SimpleNumber::Integer(v)))))
+        }
+        "f" => {
+            let bits = u64::from_str_radix(atom(&items[1]).ok_or("BAD-TERM")?, 16).map_err(|_| "BAD-TERM")?;
+            let v = f64::from_bits(bits);
+            let disp = atom(items.get(2).ok_or("BAD-TERM")?).ok_or("BAD-TERM")?;
+            if format!("{}", v) != disp {
+                return Err(format!("BAD-DISPLAY {} {}", disp, v));
+            }
+            let want = if v.is_nan() { "(f nan)".to_string() } else { format!("(f {:016x})", bits) };
+            Ok((d.add_number(SimpleNumber::Float(v)).map_err(de)?, want, real_hash(SimpleData::Number(SimpleNumber::Float(v)))))
+        }
+        "c" => {
+            let c = char::from_u32(num(1)? as u32).ok_or("BAD-TERM")?;
+            Ok((d.add_char(c).map_err(de)?, format!("(c {})", c as u32), real_hash(SimpleData::Char(c))))
+        }
+        "b" => {
+            let b = num(1)? as u8;
+            Ok((d.add_byte(b).map_err(de)?, format!("(b {})", b), real_hash(SimpleData::Byte(b))))
+        }
+        "s" => {
+            let s = num(1)?;
+            Ok((d.add_symbol(s).map_err(de)?, format!("(s {})", s), real_hash(SimpleData::Symbol(s))))
+        }
+        "e" => {
+            let s = num(1)? as usize;
+            Ok((d.add_expression(s).map_err(de)?, format!("(e {})", s), real_hash(SimpleData::Expression(s))))
+        }
+        "x" => {
+            let s = num(1)? as usize;
+            Ok((d.add_external(s).map_err(de)?, format!("(x {})", s), real_hash(SimpleData::External(s))))
+        }
+        "ty" => {
+            let name = atom(&items[1]).ok_or("BAD-TERM")?;
+            let t = type_of_name(name).ok_or("BAD-TERM")?;
+            Ok((d.add_type(t).map_err(de)?, format!("(ty {})", name), real_hash(SimpleData::Type(t))))
+        }
+        "cl" => {
+            d.start_char_list().map_err(de)?;
+            let mut want = String::from("(cl");
+            let mut text = String::new();
+            for k in 1..items.len() {
+                let c = char::from_u32(num(k)? as u32).ok_or("BAD-TERM")?;
+                text.push(c);
+                d.add_to_char_list(c).map_err(de)?;
+                want.push_str(&format!(" {}", c as u32));
+            }
+            want.push(')');
+            Ok((d.end_char_list().map_err(de)?, want, real_hash(SimpleData::CharList(text))))
+        }
+        "bl" => {
+            d.start_byte_list().map_err(de)?;
+            let mut want = String::from("(bl");
+            let mut bytes = vec![];
+            for k in 1..items.len() {
+                let b = num(k)? as u8;
+                bytes.push(b);
+                d.add_to_byte_list(b).map_err(de)?;
+                want.push_str(&format!(" {}", b));
+            }
+            want.push(')');
+            Ok((d.end_byte_list().map_err(de)?, want, real_hash(SimpleData::ByteList(bytes))))
+        }
+        _ => Err("BAD-TERM".into()),
+    }
+}
+
+pub fn cache_case(f: &[&str]) -> String {
+    if f.len() < 3 {
+        return "BAD-CASE".to_string();
+    }
+    let mut d = SimpleStore::create(None);
+    let mut addrs: Vec<usize> = vec![];
+    let mut wants: Vec<String> = vec![];
+    let mut hashes: Vec<String> = vec![];
+    let mut verdict: Option<String> = None;
+    for (k, field) in f[3..].iter().enumerate() {
+        let t = match parse_term(field) {
+            Ok(t) => t,
+            Err(_) => return "BAD-CASE".to_string(),
+        };
+        match cache_add_term(&mut d, &t) {
+            Ok((a, w, x)) => {
+                addrs.push(a);
+                wants.push(w);
+                hashes.push(format!("{:016x}", x));
+            }
+            Err(e) => return format!("{}@{}", e, k),
+        }
+        // the property on the implementation alone: every constant added so far reads back with its own content,
+        // equal constants share an address, different constants do not
+        if verdict.is_none() {
+            for m in 0..addrs.len() {
+                if render(&d, addrs[m], 0) != wants[m] {
+                    verdict = Some(format!("FAIL@{}:read[{}]", k, m));
+                    break;
+                }
+                let nan = wants[m] == "(f nan)";
+                for n in 0..m {
+                    let same_c = wants[n] == wants[m] && !nan;
+                    let same_a = addrs[n] == addrs[m];
+                    if same_c != same_a && !nan {
+                        verdict = Some(format!("FAIL@{}:intern[{},{}]", k, n, m));
+                        break;
+                    }
+                }
+                if verdict.is_some() {
+                    break;
+                }
+            }
+        }
+    }
+    let a: Vec<String> = addrs.iter().map(|a| format!("{}", a)).collect();
+    let r: Vec<String> = addrs.iter().map(|a| render(&d, *a, 0)).collect();
+    format!("ok A={} R={} X={} O={}", a.join(","), r.join(";"), hashes.join(","), verdict.unwrap_or("ok".to_string()))
 }
